@@ -1,5 +1,6 @@
 import PikaVerif.Lemmas.AffBalanced
 import PikaVerif.Lemmas.AffPool
+import PikaVerif.Lemmas.AffTerm
 /-!
 # C15 — workers are pinned to distinct PUs inside the process mask
 
@@ -295,5 +296,145 @@ example : ∃ s, runLog Pool.step (Pool.init [0, 1, 2, 3] 4) [.create, .add 2 1,
     s.configured = true ∧ s.pool 0 = [0, 1, 3] ∧ s.pool 1 = [2] := ⟨_, rfl, rfl, rfl, rfl⟩
 /-- handing the same PU out twice is refused -/
 example : runLog Pool.step (Pool.init [0, 1] 2) [.create, .add 1 1, .add 1 0] = none := by decide
+
+/-! ## Follow-up C15t (1): termination of scatter and balanced
+
+`usable cfg` (`Lemmas/AffTerm.lean`) = number of PUs the `next_pu_index` loops of scatter and
+balanced can ever reach: PUs inside the effective mask on the first `min(max_cores, #cores)`
+cores (`usable_mask`: the whole mask count when the process mask is used; `usable_nomask`: all
+PUs of those cores when it is ignored).  The model's outer loops carry a fuel argument
+(`cfg.n + 1` passes) and report `diverge` when the fuel runs out **or** when a pass places no
+thread (after which every further pass of the real loop is identical).  The theorems below show
+that the fuel never runs out and that the second case happens exactly when `usable cfg < cfg.n`:
+the real loop nests return for every other input. -/
+
+/-- **scatter does not return exactly when the request passes `check_num_threads` but the cores
+    the decoder looks at hold fewer usable PUs than threads** (both directions). -/
+theorem C15_scatter_diverges_iff (cfg : Cfg) :
+    isDiverge (decode .scatter cfg) = (!tooMany cfg && decide (usable cfg < cfg.n)) := by
+  simp only [decode, decodeScatter]
+  cases ht : tooMany cfg with
+  | true => simp [isDiverge]
+  | false =>
+    simp only [Bool.false_eq_true, ↓reduceIte, Bool.not_false, Bool.true_and]
+    by_cases h0 : cfg.n = 0
+    · simp [h0, isDiverge]
+    · simp only [h0, ↓reduceIte]
+      by_cases hg : usable cfg < cfg.n
+      · rw [scatterLoop_diverges cfg hg (cfg.n + 1) ⟨ASt.init, fun _ => 0⟩ (scatter_init_TBase cfg)
+          (by simp [ASt.init]; omega) (fun _ _ => rfl)]
+        simp [isDiverge, hg]
+      · obtain ⟨aff, pn, h⟩ := scatterLoop_terminates cfg (by omega) (cfg.n + 1)
+          ⟨ASt.init, fun _ => 0⟩ (scatter_init_TBase cfg) (by simp [ASt.init]; omega)
+          (fun _ _ => rfl) (by simp [ASt.init])
+        rw [h]; simp [isDiverge, hg]
+
+/-- **balanced does not return exactly on the same inputs** (both directions). -/
+theorem C15_balanced_diverges_iff (cfg : Cfg) :
+    isDiverge (decode .balanced cfg) = (!tooMany cfg && decide (usable cfg < cfg.n)) := by
+  simp only [decode, decodeBalanced]
+  cases ht : tooMany cfg with
+  | true => simp [isDiverge]
+  | false =>
+    simp only [Bool.false_eq_true, ↓reduceIte, Bool.not_false, Bool.true_and]
+    have hs := balPhase1_isSome cfg 0 cfg.n (effCores cfg)
+    rw [← usable_eq_balTotal] at hs
+    cases hb : balPhase1 cfg 0 cfg.n (effCores cfg) with
+    | none =>
+      rw [hb] at hs
+      have : usable cfg < cfg.n := by
+        have : ¬ cfg.n ≤ usable cfg := by simpa using hs.symm
+        omega
+      simp [isDiverge, this]
+    | some b =>
+      rw [hb] at hs
+      have hle : cfg.n ≤ usable cfg := by simpa using hs.symm
+      have : ¬ usable cfg < cfg.n := by omega
+      simp only [this, decide_false]
+      cases balPhase2 cfg b (effUsed cfg) (effUsed cfg) (effCores cfg) ASt.init <;> rfl
+
+/-- **A satisfiable scatter request is accepted**: with `--pika:cores` not below the thread
+    count (or the process mask in use) every thread count that fits returns masks — which then
+    satisfy all clauses (`C15_singleton_in_mask`, `C15_distinct`, `C15_reported_pu_is_bound`). -/
+theorem C15_scatter_accepts_satisfiable (cfg : Cfg) (hwf : WF cfg.t) (hc : CoresOK cfg)
+    (hn : cfg.n ≤ avail cfg) : ∃ aff pn, decode .scatter cfg = .ok aff pn := by
+  have hu := usable_enough cfg hwf hc hn
+  simp only [decode, decodeScatter, tooMany_false cfg hn, Bool.false_eq_true, ↓reduceIte]
+  by_cases h0 : cfg.n = 0
+  · simp only [h0, ↓reduceIte]; exact ⟨_, _, rfl⟩
+  · simp only [h0, ↓reduceIte]
+    exact scatterLoop_terminates cfg hu (cfg.n + 1) ⟨ASt.init, fun _ => 0⟩ (scatter_init_TBase cfg)
+      (by simp [ASt.init]; omega) (fun _ _ => rfl) (by simp [ASt.init])
+
+/-- **A satisfiable balanced request is accepted.** -/
+theorem C15_balanced_accepts_satisfiable (cfg : Cfg) (hwf : WF cfg.t) (hc : CoresOK cfg)
+    (hn : cfg.n ≤ avail cfg) : ∃ aff pn, decode .balanced cfg = .ok aff pn := by
+  have hu := usable_enough cfg hwf hc hn
+  simp only [decode, decodeBalanced, tooMany_false cfg hn, Bool.false_eq_true, ↓reduceIte]
+  have hs := balPhase1_isSome cfg 0 cfg.n (effCores cfg)
+  rw [← usable_eq_balTotal] at hs
+  cases hb : balPhase1 cfg 0 cfg.n (effCores cfg) with
+  | none => rw [hb] at hs; simp [hu] at hs
+  | some b =>
+    simp only
+    have := balPhase2_noerr cfg b (effUsed cfg) (effUsed cfg) (effCores cfg) ASt.init (fun _ _ => rfl)
+    cases hr : balPhase2 cfg b (effUsed cfg) (effUsed cfg) (effCores cfg) ASt.init with
+    | run s => exact ⟨_, _, rfl⟩
+    | fin s => exact ⟨_, _, rfl⟩
+    | err => rw [hr] at this; exact this.elim
+
+/-- **With the process mask in use scatter and balanced always return** (an error for an
+    oversubscribed request, masks otherwise): the endless loops need
+    `--pika:ignore-process-mask`. -/
+theorem C15_mask_used_never_hangs (m : Mode) (hm : m = .scatter ∨ m = .balanced) (cfg : Cfg)
+    (hp : cfg.usePm = true) : isDiverge (decode m cfg) = false := by
+  have hu := usable_mask cfg hp
+  have : (!tooMany cfg && decide (usable cfg < cfg.n)) = false := by
+    rw [hu]
+    simp only [tooMany, hp, ↓reduceIte]
+    by_cases h : cfg.n > countMask cfg
+    · simp [h]
+    · have h' : ¬ countMask cfg < cfg.n := by omega
+      simp [h']
+  rcases hm with hm | hm <;> subst hm
+  · rw [C15_scatter_diverges_iff, this]
+  · rw [C15_balanced_diverges_iff, this]
+
+/-- **With the mask ignored they hang exactly when `--pika:cores` cuts the machine to fewer PUs
+    than threads**: `n ≤ #PUs` (accepted by `check_num_threads`) but the first
+    `min(max_cores, #cores)` cores hold fewer than `n` PUs. -/
+theorem C15_mask_ignored_hangs_iff (m : Mode) (hm : m = .scatter ∨ m = .balanced) (cfg : Cfg)
+    (hp : cfg.usePm = false) :
+    isDiverge (decode m cfg) =
+      (decide (cfg.n ≤ numPus cfg.t) && decide (base cfg.t (min cfg.maxCores cfg.t.nc) < cfg.n)) := by
+  have hu := usable_nomask cfg hp
+  have ht : (!tooMany cfg) = decide (cfg.n ≤ numPus cfg.t) := by
+    simp only [tooMany, hp, Bool.false_eq_true, ↓reduceIte]
+    by_cases h : cfg.n ≤ numPus cfg.t
+    · have : ¬ cfg.n > numPus cfg.t := by omega
+      simp [h, this]
+    · have : cfg.n > numPus cfg.t := by omega
+      simp [h, this]
+  rcases hm with hm | hm <;> subst hm
+  · rw [C15_scatter_diverges_iff, hu, ht]
+  · rw [C15_balanced_diverges_iff, hu, ht]
+
+/-- the fuel of the model's loops is irrelevant: a larger bound gives the same result
+    (stated for the first phase of balanced, which numa-balanced shares) -/
+theorem C15_balanced_fuel_irrelevant (cfg : Cfg) (off goal ncores f : Nat) (hg : 0 < goal)
+    (hf : goal ≤ f) :
+    (balLoop cfg off goal ncores f BSt.init).isSome = (balPhase1 cfg off goal ncores).isSome := by
+  rw [balPhase1_isSome]
+  by_cases h : goal ≤ balTotal cfg off ncores
+  · obtain ⟨b, hb, _⟩ := balLoop_terminates cfg off goal ncores h f BSt.init (init_TBase _ _ _)
+      (by simpa [BSt.init] using hg) (by simp [BSt.init]; omega)
+    simp [hb, h]
+  · rw [balLoop_diverges cfg off goal ncores (by omega) f BSt.init (init_TBase _ _ _)
+      (by simpa [BSt.init] using hg)]
+    simp [h]
+
+example : usable cfg21 = 1 ∧ avail cfg21 = 2 := by decide
+example : isDiverge (decode .scatter (cfgA 4)) = false :=
+  C15_mask_used_never_hangs _ (Or.inl rfl) _ rfl
 
 end PikaVerif.C15
